@@ -10,6 +10,7 @@ import Driver.GateOps
 import Driver.BlockOps
 import Driver.NJOps
 import Driver.AnnOps
+import Driver.ImgOps
 /-
   Line-protocol driver: one operation per input line, one canonical result line per operation.
   Imports Model only (core Lean), so it links as a `lean_exe`.
@@ -59,6 +60,9 @@ def step (st : St) (line : String) : St × String :=
   | none =>
   match annOps st.ann w with
   | some (a, r) => ({ st with ann := a }, r)
+  | none =>
+  match imgOps w with
+  | some r => (st, r)
   | none => (st, "bad-op")
 
 partial def loop (h : IO.FS.Stream) (out : IO.FS.Stream) (st : St) : IO Unit := do
